@@ -214,6 +214,30 @@ type JobRecord struct {
 // ErrHung: the request did not return within the time limit.
 var ErrHung = errors.New("harness: request did not terminate")
 
+// stackShape reduces a goroutine dump to where the goroutines inside the repository's code are: function names of
+// their frames, without goroutine numbers, arguments and addresses.
+func stackShape(all string) string {
+	var out []string
+	for _, g := range strings.Split(all, "\n\n") {
+		if !strings.Contains(g, "streamingfast/substreams/") || strings.Contains(g, "world.Run(") {
+			continue
+		}
+		var fns []string
+		for i, line := range strings.Split(g, "\n") {
+			if i == 0 || strings.HasPrefix(line, "\t") || strings.HasPrefix(line, "created by") {
+				continue
+			}
+			if k := strings.LastIndex(line, "("); k > 0 {
+				line = line[:k]
+			}
+			fns = append(fns, line)
+		}
+		out = append(out, strings.Join(fns, "<"))
+	}
+	sort.Strings(out)
+	return strings.Join(out, "\n")
+}
+
 // interestingStacks keeps the goroutines that are inside the repository's code.
 func interestingStacks(all string) string {
 	var out []string
@@ -618,6 +642,11 @@ func Run(mods *pbsubstreams.Modules, req Request, cfg Config) *Result {
 	if maxWindows <= 0 {
 		maxWindows = 15
 	}
+	// A window without ticks is not yet a verdict on a machine that is overloaded (goroutines of the request sitting
+	// in a write or waiting for a processor): the request is stuck when, in addition, the goroutines that are inside
+	// the repository's code are at the same places at the end of the next tickless window (a deadlock or a spinning
+	// loop looks the same twice; work that creeps forward does not).
+	quietShape := ""
 	for window := 0; window < maxWindows && !finished; window++ {
 		select {
 		case res.Err = <-done:
@@ -626,12 +655,17 @@ func Run(mods *pbsubstreams.Modules, req Request, cfg Config) *Result {
 			now := atomic.LoadInt64(cfg.ticks)
 			if now != last && window < maxWindows-1 {
 				last = now
+				quietShape = ""
 				continue
 			}
 			buf := make([]byte, 1<<20)
 			buf = buf[:runtime.Stack(buf, true)]
+			if shape := stackShape(string(buf)); window < maxWindows-1 && shape != quietShape {
+				quietShape = shape // first tickless window, or the goroutines moved since the last one
+				continue
+			}
 			res.Hung = true
-			res.Err = fmt.Errorf("%w after %s without progress (%d windows)\n%s", ErrHung, limit, window+1, interestingStacks(string(buf)))
+			res.Err = fmt.Errorf("%w after %s without progress and with its goroutines where they were a window earlier (%d windows)\n%s", ErrHung, limit, window+1, interestingStacks(string(buf)))
 			cancel()
 			select {
 			case <-done:
